@@ -194,6 +194,8 @@ type world struct {
 	wm        *wireMon
 	knownHits map[string]int
 	knownStop bool
+	calls     []*apiCall
+	onEmitHook func(p *wirePacket)
 }
 
 // knownClasses: violation classes recorded in known_findings.json as open
@@ -277,6 +279,9 @@ func (w *world) onSend(c *simConn, raw []byte) {
 	w.sim.trace.addInt(int64(p.at))
 	for _, m := range w.mons {
 		m.onEmit(p)
+	}
+	if w.onEmitHook != nil {
+		w.onEmitHook(p)
 	}
 	w.net.send(c.side, w.eps[1-c.side].conn, p)
 	if w.verbose != nil {
@@ -389,6 +394,8 @@ func (w *world) connect(limit time.Duration) bool {
 		w.sim.spawnClient("connect."+ep.name, ep.name, func() {
 			var a *Association
 			var err error
+			call := w.beginCall(ep, "connect", -1)
+			defer func() { w.endCall(call, ep.connErr) }()
 			if ep.cfg.Role == "server" {
 				a, err = ServerWithOptions(toServerOpts(w.options(ep.side))...)
 			} else {
@@ -682,6 +689,7 @@ type msgRec struct {
 	relVal     uint32
 	dcep       bool
 	tail       bool
+	stateAtInvoke uint32
 	invokeSeq  int64
 	returnSeq  int64
 	invokeAt   time.Duration
@@ -761,11 +769,13 @@ func (w *world) write(st *simStream, m *msgRec) {
 	} else {
 		payload = payloadFor(m.id, m.size)
 	}
-	m.invokeSeq = w.nextSeq()
+	call := w.beginCall(st.ep, "write", int(st.sid))
+	m.invokeSeq = call.invokeSeq
 	m.invokeAt = w.now()
 	st.writes = append(st.writes, m)
 	n, err := st.s.WriteSCTP(payload, PayloadProtocolIdentifier(m.ppi))
-	m.returnSeq = w.nextSeq()
+	w.endCall(call, err)
+	m.returnSeq = call.returnSeq
 	m.returnAt = w.now()
 	m.n, m.err, m.done = n, err, true
 	w.apiEvent(st.ep, "write", fmt.Sprintf("sid=%d msg=%d size=%d n=%d err=%v", st.sid, m.id, m.size, n, err))
@@ -774,9 +784,11 @@ func (w *world) write(st *simStream, m *msgRec) {
 // read performs one ReadSCTP and attributes the result.
 func (w *world) read(st *simStream, buf []byte, index map[uint32]*msgRec) *readRec {
 	r := &readRec{to: st.ep.side, sid: st.sid, inc: st.inc}
-	r.invokeSeq = w.nextSeq()
+	call := w.beginCall(st.ep, "read", int(st.sid))
+	r.invokeSeq = call.invokeSeq
 	n, ppi, err := st.s.ReadSCTP(buf)
-	r.returnSeq = w.nextSeq()
+	w.endCall(call, err)
+	r.returnSeq = call.returnSeq
 	r.at = w.now()
 	r.n, r.ppi, r.err = n, uint32(ppi), err
 	st.reads = append(st.reads, r)
@@ -854,6 +866,7 @@ type runResult struct {
 	Trace     []string          `json:"trace,omitempty"`
 	NAPI      int               `json:"napi"`
 	Known     map[string]int    `json:"known,omitempty"`
+	Params    map[string]int    `json:"params,omitempty"`
 	Extra     map[string]any    `json:"extra,omitempty"`
 }
 
@@ -1034,6 +1047,30 @@ func (w *world) setup(cfg *runConfig) {
 }
 
 func isEOF(err error) bool { return errors.Is(err, io.EOF) }
+
+// ---------------------------------------------------------------- registry of blocking API calls (C09)
+
+type apiCall struct {
+	ep        *endpoint
+	op        string
+	sid       int
+	invokeSeq int64
+	invokeAt  time.Duration
+	done      bool
+	returnAt  time.Duration
+	returnSeq int64
+	err       error
+}
+
+func (w *world) beginCall(ep *endpoint, op string, sid int) *apiCall {
+	c := &apiCall{ep: ep, op: op, sid: sid, invokeSeq: w.nextSeq(), invokeAt: w.now()}
+	w.calls = append(w.calls, c)
+	return c
+}
+
+func (w *world) endCall(c *apiCall, err error) {
+	c.done, c.err, c.returnAt, c.returnSeq = true, err, w.now(), w.nextSeq()
+}
 
 // stopped: the run has a verdict (or hit a recorded finding that ends it) and
 // the scenario should return.
